@@ -18,13 +18,14 @@ class Obligation:
 
 
 class State:
-    def __init__(self, vars=None, heap=None, pc=TRUE):
+    def __init__(self, vars=None, heap=None, pc=TRUE, undef=None):
         self.vars = vars if vars is not None else {}
         self.heap = heap if heap is not None else {}
         self.pc = pc
+        self.undef = set(undef) if undef else set()   # names bound on some merged paths only
 
     def copy(self, pc=None):
-        return State(dict(self.vars), dict(self.heap), self.pc if pc is None else pc)
+        return State(dict(self.vars), dict(self.heap), self.pc if pc is None else pc, self.undef)
 
 
 class Outcomes:
@@ -43,10 +44,15 @@ def merge(a, b, sel=None):
     if z3.is_false(b.pc):
         return a
     c = a.pc if sel is None else sel
-    out = State({}, {}, or_(a.pc, b.pc))
+    out = State({}, {}, or_(a.pc, b.pc), a.undef | b.undef)
     for k in set(a.vars) | set(b.vars):
         va, vb = a.vars.get(k, POISON), b.vars.get(k, POISON)
-        if va is POISON or vb is POISON:
+        if (k in a.vars) != (k in b.vars) and not k.startswith("$"):
+            # bound on one side only: readable by contract clauses (arbitrary on the other side),
+            # not by code (UnboundLocalError risk)
+            out.vars[k] = va if k in a.vars else vb
+            out.undef.add(k)
+        elif va is POISON or vb is POISON:
             out.vars[k] = POISON
         elif va is vb:
             out.vars[k] = va
@@ -266,6 +272,9 @@ class Executor:
             return self.bound[name]
         if name in st.vars:
             v = st.vars[name]
+            if name in st.undef and not self.spec_mode:
+                raise OutOfSubset("%s: variable %s may be unbound here (line %s)" % (
+                    self.fi.qual, name, getattr(node, "lineno", "?")))
             if v is POISON:
                 raise OutOfSubset("%s: variable %s is not definitely bound with one kind (line %s)" % (
                     self.fi.qual, name, getattr(node, "lineno", "?")))
@@ -338,7 +347,8 @@ class Executor:
                 if z3.is_int_value(y) and y.as_long() == 1:
                     return vint(floor_div(to_int(a), z3.IntVal(2)))
             self.unsupported(node, "operator")
-        return arith(self.OPS[type(op)], a, b, lambda what, cond: self.check(st, what, cond, node))
+        return arith(self.OPS[type(op)], a, b, lambda what, cond: self.check(st, what, cond, node),
+                     None if self.spec_mode else (lambda fact: self.ctx.hyps.append(fact)))
 
     def e_BinOp(self, node, st):
         a = self.eval(node.left, st)
@@ -685,7 +695,7 @@ class Executor:
         pre = State(formals, dict(st.heap), st.pc)
         sub.old_state = pre
         for i, r in enumerate(spec.requires):
-            c = sub.eval_spec(r, pre)
+            c = sub.eval_spec(r[1] if isinstance(r, tuple) else r, pre)
             if not self.spec_mode:
                 self.ctx.oblige(st, "%scall-pre:%s#%d@%s" % (self.tag, fi.short, i, self._site(node)), c, "call-pre",
                                 getattr(node, "lineno", None))
@@ -721,7 +731,7 @@ class Executor:
         res = fresh(rk, "ret_" + fi.name)
         sub.result = res
         for e in spec.ensures:
-            self.ctx.assume(st, sub.eval_spec(e, post))
+            self.ctx.assume(st, sub.eval_spec(e[1] if isinstance(e, tuple) else e, post))
         st.heap = post.heap
         return res
 
@@ -838,6 +848,14 @@ class Executor:
 
     # --- assignment
     def s_Assign(self, node, st):
+        nv = node.value
+        if isinstance(nv, ast.Call) and isinstance(nv.func, ast.Attribute) and nv.func.attr == "format" \
+                and isinstance(nv.func.value, ast.Constant) and isinstance(nv.func.value.value, str):
+            self.ctx.dropped.append("%s:%d assignment of a formatted message string" % (self.fi.path, node.lineno))
+            for t in node.targets:
+                if isinstance(t, ast.Name):
+                    st.vars[t.id] = POISON
+            return Outcomes(normal=st)
         v = self.eval(node.value, st)
         for t in node.targets:
             self.assign(t, v, st, node)
@@ -877,6 +895,7 @@ class Executor:
                 v, sc = coerce(v, dk)
                 self.check(st, "local-kind:" + target.id, sc, node)
             st.vars[target.id] = v
+            st.undef.discard(target.id)
             return
         if isinstance(target, (ast.Tuple, ast.List)):
             if isinstance(v.kind, KTuple):
